@@ -50,8 +50,8 @@ fn field_sig(f: &Field, out: &mut String) {
         }
         Field::Ignore => out.push('G'),
         Field::Timestamp => out.push('T'),
-        Field::Flatten { pfx, optional, child, .. } => {
-            let _ = write!(out, "F{pfx:?}/{optional}/");
+        Field::Flatten { pfx, optional, wrap, child, .. } => {
+            let _ = write!(out, "F{pfx:?}/{optional}/{wrap:?}/");
             def_sig(child, out);
         }
         Field::FlattenEntry { .. } => out.push('R'),
@@ -96,6 +96,8 @@ pub struct Codegen {
     ids: Vec<usize>,
     next_ty: usize,
     pub type_count: usize,
+    /// > 0 while emitting the types below a `Cow` (the closed child must be `Clone` = `ToOwned`)
+    clone_depth: u32,
     sigs: std::collections::HashMap<String, NT>,
 }
 
@@ -107,6 +109,10 @@ impl Codegen {
         self.next_ty += 1;
         self.type_count += 1;
         format!("T{}", self.next_ty)
+    }
+
+    fn derive(&self) -> &'static str {
+        if self.clone_depth > 0 { "#[derive(Clone)]\n" } else { "" }
     }
 
     fn container_attrs(&self, mode: &str, a: &Attrs, tag: &Option<Tag>) -> String {
@@ -154,7 +160,7 @@ impl Codegen {
                 if let Some(r) = style.attr() {
                     attrs.push(format!("rename_all = {}", lit(r)));
                 }
-                let _ = writeln!(self.types, "#[metrics({})]\npub enum {name} {{", attrs.join(", "));
+                let _ = writeln!(self.types, "#[metrics({})]\n{}pub enum {name} {{", attrs.join(", "), self.derive());
                 for (id, ov) in variants {
                     match ov {
                         Some(n) => {
@@ -177,8 +183,9 @@ impl Codegen {
                 };
                 let _ = writeln!(
                     self.types,
-                    "#[metrics(value{})]\npub struct {name}({u}pub {ity});",
-                    if sample_group { ", sample_group" } else { "" }
+                    "#[metrics(value{})]\n{}pub struct {name}({u}pub {ity});",
+                    if sample_group { ", sample_group" } else { "" },
+                    self.derive()
                 );
                 (NT::Ty(name.clone(), vec![vec![int]]), name)
             }
@@ -211,16 +218,36 @@ impl Codegen {
             Field::Timestamp => {
                 (NT::Leaf, "#[metrics(timestamp)] ".to_string(), format!("zz{idx}"), "std::time::SystemTime".to_string())
             }
-            Field::Flatten { pfx, optional, child, .. } => {
+            Field::Flatten { pfx, optional, wrap, child, .. } => {
+                if wrap.needs_clone() {
+                    self.clone_depth += 1;
+                }
                 let nt = self.def_types(child, false);
+                if wrap.needs_clone() {
+                    self.clone_depth -= 1;
+                }
                 let NT::Ty(cname, _) = &nt else { unreachable!() };
                 let p = match pfx {
                     None => String::new(),
                     Some(Pfx::Infl(p)) => format!(", prefix = {}", lit(p)),
                     Some(Pfx::Exact(p)) => format!(", exact_prefix = {}", lit(p)),
                 };
-                let ty = if *optional { format!("Option<{cname}>") } else { cname.clone() };
-                (nt, format!("#[metrics(flatten{p})] "), format!("zz{idx}"), ty)
+                let inner = match wrap {
+                    Wrap::Owned => cname.clone(),
+                    Wrap::Ref => format!("WRef<{cname}>"),
+                    Wrap::Box => format!("WBox<{cname}>"),
+                    Wrap::Arc => format!("WArc<{cname}>"),
+                    Wrap::Cow => format!("WCow<{cname}>"),
+                    Wrap::ForceFlag => format!("metrique::writer::core::value::ForceFlag<{cname}, NoFlags>"),
+                    Wrap::WithDims => format!("metrique::writer::core::value::WithDimensions<{cname}, 1>"),
+                    Wrap::Mutex => format!("std::sync::Mutex<{cname}>"),
+                    Wrap::StdArc => format!("std::sync::Arc<{cname}>"),
+                    Wrap::NoCloseArc => format!("std::sync::Arc<<{cname} as CloseValue>::Closed>"),
+                    Wrap::RealCow => format!("std::borrow::Cow<'static, <{cname} as CloseValue>::Closed>"),
+                };
+                let no_close = if *wrap == Wrap::NoCloseArc { ", no_close" } else { "" };
+                let ty = if *optional { format!("Option<{inner}>") } else { inner };
+                (nt, format!("#[metrics(flatten{no_close}{p})] "), format!("zz{idx}"), ty)
             }
             Field::FlattenEntry { .. } => {
                 (NT::Leaf, "#[metrics(flatten_entry)] ".to_string(), format!("zz{idx}"), "RawEntry".to_string())
@@ -242,7 +269,7 @@ impl Codegen {
                     nts.push(nt);
                     decls.push(decl);
                 }
-                let _ = writeln!(self.types, "{}\npub struct {name} {{", self.container_attrs(mode, a, &None));
+                let _ = writeln!(self.types, "{}\n{}pub struct {name} {{", self.container_attrs(mode, a, &None), self.derive());
                 for dcl in decls {
                     let _ = writeln!(self.types, "    {dcl},");
                 }
@@ -273,7 +300,7 @@ impl Codegen {
                     }
                     all.push(nts);
                 }
-                let _ = writeln!(self.types, "{}\npub enum {name} {{\n{body}}}", self.container_attrs(mode, a, tag));
+                let _ = writeln!(self.types, "{}\n{}pub enum {name} {{\n{body}}}", self.container_attrs(mode, a, tag), self.derive());
                 NT::Ty(name, all)
             }
         }
@@ -318,16 +345,25 @@ impl Codegen {
             Field::Plain { v, .. } => Self::fval_expr(v, nt),
             Field::Ignore => "0u8".to_string(),
             Field::Timestamp => "std::time::SystemTime::UNIX_EPOCH".to_string(),
-            Field::Flatten { optional, present, child, .. } => {
-                if *optional {
-                    if *present {
-                        format!("Some({})", Self::def_expr(child, nt))
-                    } else {
-                        "None".to_string()
-                    }
-                } else {
-                    Self::def_expr(child, nt)
+            Field::Flatten { optional, wrap, present, child, .. } => {
+                if *optional && !*present {
+                    return "None".to_string();
                 }
+                let c = Self::def_expr(child, nt);
+                let inner = match wrap {
+                    Wrap::Owned => c,
+                    Wrap::Ref => format!("WRef({c})"),
+                    Wrap::Box => format!("WBox({c})"),
+                    Wrap::Arc => format!("WArc({c})"),
+                    Wrap::Cow => format!("WCow({c})"),
+                    Wrap::ForceFlag => format!("metrique::writer::core::value::ForceFlag::<_, NoFlags>::from({c})"),
+                    Wrap::WithDims => format!("metrique::writer::core::value::WithDimensions::new({c}, \"DimK\", \"dim-v\")"),
+                    Wrap::Mutex => format!("std::sync::Mutex::new({c})"),
+                    Wrap::StdArc => format!("std::sync::Arc::new({c})"),
+                    Wrap::NoCloseArc => format!("std::sync::Arc::new(CloseValue::close({c}))"),
+                    Wrap::RealCow => format!("std::borrow::Cow::Owned(CloseValue::close({c}))"),
+                };
+                if *optional { format!("Some({inner})") } else { inner }
             }
             Field::FlattenEntry { items, sg } => {
                 let its: Vec<String> = items
@@ -405,7 +441,7 @@ impl Codegen {
         let mut s = String::new();
         s.push_str("// GENERATED by harness/src/bin/naming.rs — rewritten on every run\n");
         s.push_str("#![allow(non_snake_case, non_camel_case_types, dead_code, unused, deprecated, clippy::all, uncommon_codepoints, mixed_script_confusables, confusable_idents)]\n");
-        s.push_str("#[path = \"../support.rs\"]\nmod support;\nuse support::{record, RawEntry};\nuse metrique::unit_of_work::metrics;\nuse metrique::{CloseValue, RootEntry};\n\n");
+        s.push_str("#[path = \"../support.rs\"]\nmod support;\nuse support::{record, NoFlags, RawEntry, WArc, WBox, WCow, WRef};\nuse metrique::unit_of_work::metrics;\nuse metrique::{CloseValue, RootEntry};\n\n");
         s.push_str(&self.types);
         s.push('\n');
         s.push_str(&self.fns);
